@@ -67,6 +67,39 @@ let show_outcome o =
     (int_of_n o.o_status)
     (String.concat " " (List.map show_chars o.o_hrefs)) (show_chars o.o_extra)
 
+let hobj_of = function
+  | L [A "o"; n; l; t; e] -> { ho_name = str n; ho_len = bool_ l; ho_mod = bool_ t; ho_etag = bool_ e }
+  | _ -> raise (Parse_error "hobj")
+
+let hcoll_of = function
+  | L (A "c" :: nm :: sl :: n :: d :: m :: os) ->
+    { hc_name = str nm; hc_slash = bool_ sl; hc_hasname = bool_ n; hc_desc = bool_ d; hc_max = bool_ m;
+      hc_objs = List.map hobj_of os }
+  | _ -> raise (Parse_error "hcoll")
+
+let hier_of = function
+  | L (A "h" :: L ps :: pt :: u :: us :: h :: hs :: cs) ->
+    Some ({ h_ps = List.map str ps; h_user = str u; h_uslash = bool_ us; h_home = str h; h_hslash = bool_ hs;
+            h_colls = List.map hcoll_of cs }, bool_ pt)
+  | L [A "nohier"] -> None
+  | _ -> raise (Parse_error "hier")
+
+let step_name = function SPrincipal -> "principal" | SHome -> "home" | SColls -> "collections" | SObjs -> "objects"
+
+let disc_of = function
+  | L [A "found"; p; h; L cs; L os] -> Some (Found (str p, str h, List.map str cs, List.map str os))
+  | L [A "fail"; A "principal"] -> Some (Failed SPrincipal)
+  | L [A "fail"; A "home"] -> Some (Failed SHome)
+  | L [A "fail"; A "collections"] -> Some (Failed SColls)
+  | L [A "fail"; A "objects"] -> Some (Failed SObjs)
+  | _ -> None
+
+let show_disc = function
+  | Found (p, h, cs, os) ->
+    Printf.sprintf "found %s %s [%s] [%s]" (show_chars p) (show_chars h)
+      (String.concat " " (List.map show_chars cs)) (String.concat " " (List.map show_chars os))
+  | Failed st -> "fail " ^ step_name st
+
 let simple agree detail = verdict ~agree ~spec:true ~kf:"-" ~detail
 
 let () =
@@ -106,4 +139,19 @@ let () =
          bump ("method_" ^ (match rq with L (_ :: A m :: _) -> m | _ -> "?"));
          bump (Printf.sprintf "status_%d" (int_of_n o.o_status));
          verdict ~agree ~spec ~kf:"-" ~detail:("model: " ^ show_outcome m))
+    | [L [A "disc"; srv; hp; be; st; hier]; obs] ->
+      let s = srv_of srv and hprefix = str hp and b = backend_of be and start = str st in
+      let m = discover s hprefix b start in
+      (match disc_of obs with
+       | None -> verdict ~agree:false ~spec:false ~kf:"-" ~detail:("unexpected observation; model: " ^ show_disc m)
+       | Some o ->
+         let spec = match hier_of hier with
+           | Some (h, pt) when disc_in_quantifier s hprefix b start h pt ->
+             bump (Printf.sprintf "disc_collections_%d" (min 5 (List.length h.h_colls)));
+             bump (Printf.sprintf "disc_prefix_segments_%d" (List.length h.h_ps));
+             if h.h_colls <> [] then note_nontrivial (show (List.hd sx));
+             disc_spec_ok b o
+           | _ -> bump "outside_quantifier"; true in
+         bump (match o with Found _ -> "disc_found" | Failed st -> "disc_fail_" ^ step_name st);
+         verdict ~agree:(disc_agrees s hprefix b start o) ~spec ~kf:"-" ~detail:("model: " ^ show_disc m))
     | _ -> raise (Parse_error "line"))
